@@ -142,8 +142,8 @@ CHECKS.update({
 
 CHECKS.update({
  'C14': dict(engine="PYSYM+LLSYM", category="other",
-   text="Partial. (PYSYM) the real pure-Python integer layer (IntegerNative / IntegerBase / Util.number / Primality) with reduced-width solver variables against the mathematical definitions: sqrt, perfect squares, gcd, lcm, modular inverse, Jacobi symbol, sizes, byte conversion in both orders and every block size, bit access, shifts, mixed int/Integer and in-place operators, the documented exceptions, modular square roots for small prime moduli; Miller-Rabin never declares a prime below 2^8 composite for ANY random tape.  (LLSYM) the real C byte/word conversions with all bytes symbolic.  The real modexp C (monty_pow / monty_multiply + mont.c) runs on CONCRETE operands of word-boundary lengths under the bounds-checking LLSYM interpreter (memory safety, no leak, frame condition, result == Python pow) -- exactness only for the operands run.",
-   note="NOT decided: exactness of the multiplication-based C kernels and of the GMP back-end for all operands (wide symbolic multiplication is not SMT-decidable here, measured; GMP is a binary), _IntegerCustom glue, composites being declared composite (probabilistic), Lucas test, prime generation; bignum.c linear kernels are decided under C06.",
+   text="Partial. (PYSYM) the real pure-Python integer layer (IntegerNative / IntegerBase / Util.number / Primality) with reduced-width solver variables against the mathematical definitions: sqrt, perfect squares, gcd, lcm, modular inverse, Jacobi symbol, sizes, byte conversion in both orders and every block size, bit access, shifts, mixed int/Integer and in-place operators, the documented exceptions, modular square roots for small prime moduli; Miller-Rabin never declares a prime below 2^8 composite for ANY random tape, and one round of both implementations (Math.Primality, legacy Util.number) equals the strong-probable-prime predicate for EVERY base of every odd n below 2^8 and of 561, 1105, 1729, 2047; Math/_IntegerCustom.py pow() / _mult_modulo_bytes over the contract of src/modexp.c for operands of different byte lengths.  (LLSYM) the real C byte/word conversions with all bytes symbolic.  The real modexp C (monty_pow / monty_multiply + mont.c) runs on CONCRETE operands of word-boundary lengths under the bounds-checking LLSYM interpreter (memory safety, no leak, frame condition, result == Python pow) -- exactness only for the operands run.",
+   note="NOT decided: exactness of the multiplication-based C kernels and of the GMP back-end for all operands (wide symbolic multiplication is not SMT-decidable here, measured; GMP is a binary), composites of cryptographic size being declared composite (probabilistic), GMP glue, Lucas test, prime generation; bignum.c linear kernels are decided under C06.",
    technique="bounded symbolic execution of the real Python at reduced width (PYSYM) and of the real C conversions (LLSYM) + z3; concrete interpretation of the modexp C under the LLSYM memory model"),
 })
 
